@@ -56,6 +56,11 @@ def plan(tier, seed):
     out.append({'arrival': 'idle', 'how': 'quit', 'late_add': True, 'seed': seed, 'idx': len(out)})
     out.append({'arrival': 'idle', 'how': 'TERM', 'replace': True, 'seed': seed, 'idx': len(out)})
     out.append({'arrival': 'idle', 'how': 'quit', 'streams': True, 'seed': seed, 'idx': len(out)})
+    # a second termination signal while the shutdown is under way (an impatient operator, an init system that signals
+    # the whole group after the main process)
+    out.append({'arrival': 'idle', 'how': 'TERM', 'second': 'TERM', 'seed': seed, 'idx': len(out)})
+    out.append({'arrival': 'idle', 'how': 'quit', 'second': 'INT', 'seed': seed, 'idx': len(out)})
+    out.append({'arrival': 'during-stop', 'how': 'INT', 'second': 'QUIT', 'seed': seed, 'idx': len(out)})
     out.append({'arrival': 'early-startup', 'how': 'TERM', 'seed': seed, 'idx': len(out)})
     out.append({'arrival': 'early-startup', 'how': 'INT', 'seed': seed, 'idx': len(out)})
     out.append({'arrival': 'early-startup', 'how': 'TERM', 'early_delay': 0.02, 'seed': seed, 'idx': len(out)})
@@ -74,7 +79,7 @@ def build(rnd, spec):
         kind = rnd.choice(['obedient', 'slow', 'stubborn'])
         ws.append({'name': 'w%d' % i, 'kind': kind, 'np': rnd.randint(1, 2), 'gt': 1.0, 'warmup': 0,
                    'streams': rnd.random() < .3 or (i == 0 and bool(spec.get('streams')))})
-    if arrival in ('during-stop', 'during-restart'):
+    if arrival in ('during-stop', 'during-restart') or spec.get('second'):
         ws[0]['kind'] = 'stubborn'
     if arrival == 'during-long-stop':
         ws[0]['kind'] = 'stubborn'
@@ -130,7 +135,8 @@ def run_case(spec):
     rnd = rng_for(spec['seed'], 'C08', spec['idx'])
     if spec.get('random'):
         spec = dict(spec, arrival=rnd.choice(ARRIVALS), how=rnd.choice(METHODS),
-                    prepid=rnd.choice([None] * 6 + ['live', 'dead', 'empty', 'garbage', 'negative', 'zero', 'own']))
+                    prepid=rnd.choice([None] * 6 + ['live', 'dead', 'empty', 'garbage', 'negative', 'zero', 'own']),
+                    second=rnd.choice([None, None, None, 'TERM', 'INT', 'QUIT']))
         if spec['prepid']:
             spec['arrival'] = 'idle'
         if spec['arrival'] == 'early-startup' and spec['how'] == 'quit':
@@ -317,6 +323,14 @@ def _case(d, conf, spec, pidfile, res):
             res.hist['quit_refusal_reason'][str(r.get('reason'))[:60]] += 1
     elif not sent_early:
         os.kill(d.pid, getattr(signal, 'SIG' + how))
+    if spec.get('second') and accepted:
+        time.sleep(0.3)
+        if d.proc.poll() is None:
+            try:
+                os.kill(d.pid, getattr(signal, 'SIG' + spec['second']))
+                res.obs['second_signal_during_the_shutdown'] += 1
+            except OSError:
+                pass
     res.obs['shutdowns:%s' % label] += 1
     if not accepted:
         # "after an accepted quit request": a refused one is not this property (C10 says it may be refused)
